@@ -30,6 +30,8 @@ type World struct {
 	cfg     map[*ssa.Global]*ssa.Function
 	cfgBad  map[*ssa.Global]bool
 	stored  map[*ssa.Global]bool
+	constInit map[*ssa.Global]*ssa.Const
+	constBad  map[*ssa.Global]bool
 	addrTaken map[*ssa.Global]bool
 }
 
@@ -115,6 +117,8 @@ func (w *World) constFuncGlobal(g *ssa.Global) *ssa.Function {
 		w.cfg = map[*ssa.Global]*ssa.Function{}
 		w.cfgBad = map[*ssa.Global]bool{}
 		w.stored = map[*ssa.Global]bool{}
+		w.constInit = map[*ssa.Global]*ssa.Const{}
+		w.constBad = map[*ssa.Global]bool{}
 		w.addrTaken = map[*ssa.Global]bool{}
 		for fn := range ssautil.AllFunctions(w.prog) {
 			for _, b := range fn.Blocks {
@@ -154,6 +158,14 @@ func (w *World) constFuncGlobal(g *ssa.Global) *ssa.Function {
 						continue
 					}
 					w.stored[gg] = true
+					if c, isC := st.Val.(*ssa.Const); isC && fn.Name() == "init" {
+						if _, dup := w.constInit[gg]; dup {
+							w.constBad[gg] = true
+						}
+						w.constInit[gg] = c
+					} else {
+						w.constBad[gg] = true
+					}
 					f, isF := st.Val.(*ssa.Function)
 					if !isF || fn.Name() != "init" || w.cfg[gg] != nil {
 						w.cfgBad[gg] = true
@@ -190,6 +202,16 @@ func rootGlobal(v ssa.Value) *ssa.Global {
 func (w *World) neverStored(g *ssa.Global) bool {
 	w.constFuncGlobal(g) // make sure the scan ran
 	return !w.stored[g] && !w.addrTaken[g]
+}
+
+// constGlobal: a package-level variable assigned exactly once, in its package initialiser,
+// from a constant, whose address never escapes (T-const, re-scanned every run).
+func (w *World) constGlobal(g *ssa.Global) *ssa.Const {
+	w.constFuncGlobal(g)
+	if w.constBad[g] || w.addrTaken[g] {
+		return nil
+	}
+	return w.constInit[g]
 }
 
 var pureExtPrefixes = []string{"github.com/lni/goutils/logutil.", "(*github.com/lni/goutils/random.", "(github.com/lni/goutils/random.", "fmt.", "strconv.", "strings.", "errors.", "time.", "math.", "math/", "bytes.Equal", "bytes.Compare",
